@@ -5,7 +5,8 @@
 From Coq Require Import Arith Bool QArith Qcanon.
 From QV.Core Require Import OF QcOF Sums Mat Cplx Psd C04_ProjCert.
 From QV.Model Require Import QObj HermEmbed C04_Proj C04_Cert C04_Heap C04_EigClip.
-From QV.Proofs Require Import C04_Proj C04_ObjVar C04_Herm C04_Heap C04_EigClip.
+From QV.Proofs Require Import C02_Conv C04_Proj C04_ObjVar C04_Herm C04_Heap C04_EigClip C04_Params.
+From Coq Require Import Lia.
 
 (* "P is the nearest-point projection onto the set A, w.r.t. the Euclidean norm of the first L entries":
    lands in A; displacement orthogonal to the direction space of A; Pythagoras; nearest; the ONLY nearest point;
@@ -168,6 +169,101 @@ Theorem C04_eig_clip_nearest : forall (F : OF) n (U : cmat F) (w : nat -> F), un
 Proof. exact eig_clip_nearest. Qed.
 Print Assumptions C04_eig_clip_nearest.
 
+(* ------------------------------------------------------------------ from operators to the property's own words *)
+(* "closest object in the Euclidean norm of its stacked parameters ... whose operators are positive semidefinite":
+   for an orthonormal Hermitian basis the executed certificate on the OPERATORS of output x and input y says, about the
+   PARAMETER vectors: the operator of x is PSD up to eps and no z with a PSD operator beats x by more than the slack
+   (states / POVM elements: op_of_vec; Parseval from Proofs/C02_QObjBase.v) *)
+Theorem C04_vec_cert_params : forall (F : OF) d (B : nat -> cmat F) (x y : rvec F) eps delta,
+  basis_orthonormal d B -> basis_hermitian d B ->
+  cert_check d (op_of_vec d B x) (op_of_vec d B y) eps delta = true ->
+  PSD F (d + d) (shift eps (embed F d (op_of_vec d B x))) /\
+  forall z : rvec F, herm_PSD d (op_of_vec d B z) ->
+    kle F (csub F (csub F (cadd F (vdist2 (d * d) y x) (vdist2 (d * d) x z)) (cadd F delta delta))
+                  (cmul F (cadd F eps eps) (re_trace d (op_of_vec d B z))))
+          (vdist2 (d * d) y z).
+Proof. exact vec_cert_params. Qed.
+Print Assumptions C04_vec_cert_params.
+
+Theorem C04_vec_cert_params_exact : forall (F : OF) d (B : nat -> cmat F) (x y : rvec F),
+  basis_orthonormal d B -> basis_hermitian d B ->
+  cert_check d (op_of_vec d B x) (op_of_vec d B y) (c0 F) (c0 F) = true ->
+  herm_PSD d (op_of_vec d B x) /\
+  forall z : rvec F, herm_PSD d (op_of_vec d B z) ->
+    kle F (vdist2 (d * d) y x) (vdist2 (d * d) y z) /\
+    (kle F (vdist2 (d * d) y z) (vdist2 (d * d) y x) -> veq (d * d) z x).
+Proof. exact vec_cert_params_exact. Qed.
+Print Assumptions C04_vec_cert_params_exact.
+
+(* gates / instrument elements: the stacked vector is hs.flatten(), the operator its Choi matrix (isometry: choi_frobenius) *)
+Theorem C04_hs_cert_params : forall (F : OF) d (B : nat -> cmat F) (x y : rvec F) eps delta,
+  basis_orthonormal d B -> basis_hermitian d B ->
+  cert_check (d * d) (choi_of_hs d B (gate_unstack F (d * d) x)) (choi_of_hs d B (gate_unstack F (d * d) y)) eps delta = true ->
+  PSD F (d * d + d * d) (shift eps (embed F (d * d) (choi_of_hs d B (gate_unstack F (d * d) x)))) /\
+  forall z : rvec F, herm_PSD (d * d) (choi_of_hs d B (gate_unstack F (d * d) z)) ->
+    kle F (csub F (csub F (cadd F (vdist2 ((d * d) * (d * d)) y x) (vdist2 ((d * d) * (d * d)) x z)) (cadd F delta delta))
+                  (cmul F (cadd F eps eps) (re_trace (d * d) (choi_of_hs d B (gate_unstack F (d * d) z)))))
+          (vdist2 ((d * d) * (d * d)) y z).
+Proof. exact hs_cert_params. Qed.
+Print Assumptions C04_hs_cert_params.
+
+Theorem C04_hs_cert_params_exact : forall (F : OF) d (B : nat -> cmat F) (x y : rvec F),
+  basis_orthonormal d B -> basis_hermitian d B ->
+  cert_check (d * d) (choi_of_hs d B (gate_unstack F (d * d) x)) (choi_of_hs d B (gate_unstack F (d * d) y)) (c0 F) (c0 F) = true ->
+  herm_PSD (d * d) (choi_of_hs d B (gate_unstack F (d * d) x)) /\
+  forall z : rvec F, herm_PSD (d * d) (choi_of_hs d B (gate_unstack F (d * d) z)) ->
+    kle F (vdist2 ((d * d) * (d * d)) y x) (vdist2 ((d * d) * (d * d)) y z) /\
+    (kle F (vdist2 ((d * d) * (d * d)) y z) (vdist2 ((d * d) * (d * d)) y x) -> veq ((d * d) * (d * d)) z x).
+Proof. exact hs_cert_params_exact. Qed.
+Print Assumptions C04_hs_cert_params_exact.
+
+(* Povm (per element) and MProcess (per outcome): all blocks certified => the STACKED output is nearest, in the Euclidean norm of
+   the stacked parameters, among all stacked vectors whose operators are all PSD (blk n s k = k-th block of length n) *)
+Theorem C04_povm_cert_params_exact : forall (F : OF) d (B : nat -> cmat F) m (x y : rvec F),
+  basis_orthonormal d B -> basis_hermitian d B ->
+  (forall k, (k < m)%nat -> cert_check d (op_of_vec d B (blk (d * d) x k)) (op_of_vec d B (blk (d * d) y k)) (c0 F) (c0 F) = true) ->
+  (forall k, (k < m)%nat -> herm_PSD d (op_of_vec d B (blk (d * d) x k))) /\
+  forall z : rvec F, (forall k, (k < m)%nat -> herm_PSD d (op_of_vec d B (blk (d * d) z k))) ->
+    kle F (vdist2 (m * (d * d)) y x) (vdist2 (m * (d * d)) y z).
+Proof. exact povm_cert_params_exact. Qed.
+Print Assumptions C04_povm_cert_params_exact.
+
+Theorem C04_mprocess_cert_params_exact : forall (F : OF) d (B : nat -> cmat F) m (x y : rvec F),
+  basis_orthonormal d B -> basis_hermitian d B ->
+  (forall k, (k < m)%nat -> cert_check (d * d) (choi_of_hs d B (gate_unstack F (d * d) (blk ((d * d) * (d * d)) x k)))
+                                        (choi_of_hs d B (gate_unstack F (d * d) (blk ((d * d) * (d * d)) y k))) (c0 F) (c0 F) = true) ->
+  (forall k, (k < m)%nat -> herm_PSD (d * d) (choi_of_hs d B (gate_unstack F (d * d) (blk ((d * d) * (d * d)) x k)))) /\
+  forall z : rvec F, (forall k, (k < m)%nat -> herm_PSD (d * d) (choi_of_hs d B (gate_unstack F (d * d) (blk ((d * d) * (d * d)) z k)))) ->
+    kle F (vdist2 (m * ((d * d) * (d * d))) y x) (vdist2 (m * ((d * d) * (d * d))) y z).
+Proof. exact mprocess_cert_params_exact. Qed.
+Print Assumptions C04_mprocess_cert_params_exact.
+
+(* END TO END, the inequality projections as coded with eigh as an oracle (Model/C04_EigClip.v vec_proj_ineq / hs_proj_ineq:
+   operator of the input -> (w, U) from eigh -> U clip(w) U^dagger -> coefficients): if (w, U) satisfies eigh's contract for
+   the operator of the input y, the returned PARAMETER vector has a PSD operator, is nearest to y in the Euclidean norm of
+   the parameters among all vectors with a PSD operator, and is the only such vector.  All d, any orthonormal Hermitian
+   complete basis, complex U. *)
+Theorem C04_vec_proj_ineq_nearest : forall (F : OF) d (B : nat -> cmat F) (y : rvec F) (U : cmat F) (w : nat -> F),
+  basis_orthonormal d B -> basis_hermitian d B -> basis_complete d B ->
+  eigh_contract d (op_of_vec d B y) U w ->
+  herm_PSD d (op_of_vec d B (vec_proj_ineq d B U w)) /\
+  forall z : rvec F, herm_PSD d (op_of_vec d B z) ->
+    kle F (vdist2 (d * d) y (vec_proj_ineq d B U w)) (vdist2 (d * d) y z) /\
+    (kle F (vdist2 (d * d) y z) (vdist2 (d * d) y (vec_proj_ineq d B U w)) -> veq (d * d) z (vec_proj_ineq d B U w)).
+Proof. exact vec_proj_ineq_nearest. Qed.
+Print Assumptions C04_vec_proj_ineq_nearest.
+
+Theorem C04_hs_proj_ineq_nearest : forall (F : OF) d (B : nat -> cmat F) (y : rvec F) (U : cmat F) (w : nat -> F),
+  basis_orthonormal d B -> basis_hermitian d B -> basis_complete d B ->
+  eigh_contract (d * d) (choi_of_hs d B (gate_unstack F (d * d) y)) U w ->
+  let x := hs_proj_ineq d B U w in
+  herm_PSD (d * d) (choi_of_hs d B (gate_unstack F (d * d) x)) /\
+  forall z : rvec F, herm_PSD (d * d) (choi_of_hs d B (gate_unstack F (d * d) z)) ->
+    kle F (vdist2 ((d * d) * (d * d)) y x) (vdist2 ((d * d) * (d * d)) y z) /\
+    (kle F (vdist2 ((d * d) * (d * d)) y z) (vdist2 ((d * d) * (d * d)) y x) -> veq ((d * d) * (d * d)) z x).
+Proof. exact hs_proj_ineq_nearest. Qed.
+Print Assumptions C04_hs_proj_ineq_nearest.
+
 (* per-element (Povm) / per-outcome (MProcess) projections are nearest for the product set: squared distances add *)
 Theorem C04_product_nearest : forall (F : OF) m (dyx dyz : nat -> F),
   (forall x, (x < m)%nat -> kle F (dyx x) (dyz x)) -> kle F (sumn m dyx) (sumn m dyz).
@@ -240,6 +336,24 @@ Example C04_example_eig_clip :
   @cert_check Qc_OF 2 (@eig_clip Qc_OF 2 ex_G ex_w) (@rebuild Qc_OF 2 ex_G ex_w) 0%Qc 0%Qc = true /\
   @cert_check Qc_OF 2 (mmul 2 (mmul 2 ex_G (@cdiag Qc_OF (fun k => @clip0 Qc_OF (ex_w k)))) (mT ex_G)) (@rebuild Qc_OF 2 ex_G ex_w) 0%Qc 0%Qc = false.
 Proof. split; vm_compute; reflexivity. Qed.
+(* the hypotheses of C04_vec_proj_ineq_nearest are satisfiable: 2-qubit normalised Pauli basis (exactly rational, Proofs/C02_Conv.v P2),
+   U = G (+) 1 (+) 1 with the complex 3-4-5 unitary G, w = (3, -1, 2, -2); y = the coefficients of U diag(w) U^dagger *)
+Definition ex_U4 : cmat Qc_OF := fun i j => if (i <? 2)%nat && (j <? 2)%nat then ex_G i j
+  else if Nat.eqb i j then (Q2Qc 1, Q2Qc 0) else (Q2Qc 0, Q2Qc 0).
+Definition ex_w4 : nat -> Qc := fun k => match k with 0%nat => Q2Qc 3 | 1%nat => Q2Qc (-1) | 2%nat => Q2Qc 2 | _ => Q2Qc (-2) end.
+Definition ex_y4 : rvec Qc_OF := vec_of_op 4 P2 (@rebuild Qc_OF 4 ex_U4 ex_w4).
+Ltac fin4 i Hi := destruct i as [|[|[|[|i]]]]; [| | | |exfalso; lia].
+Example C04_example_unitary4 : unitary 4 ex_U4.
+Proof. intros i j Hi Hj. fin4 i Hi; fin4 j Hj; apply cplx_eq; apply Qc_is_canon; vm_compute; reflexivity. Qed.
+Example C04_example_eigh_contract :
+  basis_orthonormal 4 P2 /\ basis_hermitian 4 P2 /\ basis_complete 4 P2 /\ eigh_contract 4 (op_of_vec 4 P2 ex_y4) ex_U4 ex_w4.
+Proof. split; [exact pauli2n_orthonormal|]. split; [exact pauli2n_hermitian|]. split; [exact pauli2n_complete|].
+  split; [exact C04_example_unitary4|]. intros i j Hi Hj. unfold ex_y4.
+  apply (QV.Proofs.C02_QObjBase.op_of_vec_of_op Qc_OF 4 P2 _ i j pauli2n_complete pauli2n_hermitian (rebuild_hermitian Qc_OF 4 ex_U4 ex_w4) Hi Hj). Qed.
+(* ... and the projected parameter vector differs from the input (two negative eigenvalues are clipped) *)
+Example C04_example_vec_proj_moves :
+  negb (Qc_eq_bool (@vdist2 Qc_OF 16 ex_y4 (@vec_proj_ineq Qc_OF 4 P2 ex_U4 ex_w4)) (Q2Qc 0)) = true.
+Proof. vm_compute. reflexivity. Qed.
 (* equality projections, d = 4 (sd = 2 exactly), Povm with m = 3: an infeasible input is moved onto the constraint set *)
 Definition ex_s : @vec Qc_OF := fun k => Q2Qc (Z.of_nat (k * k + 1) # 3).
 Example C04_example_povm :
